@@ -325,3 +325,65 @@ def error_line_sources(r: random.Random, tier: str) -> list[str]:
                         out.append(src + sep)
     seen: set[str] = set()
     return [s for s in out if not (s in seen or seen.add(s))]
+
+
+# ---------------------------------------------------------------- nested paths with known positions
+
+PATH_CONTEXTS = [
+    ("{{ ", " }}", True), ("{{ ", " | upcase }}", True), ("{{ a | append: ", " }}", True), ("{% if ", " %}t{% endif %}", True),
+    ("{% for i in ", " %}{% endfor %}", True), ("{% echo ", " %}", True), ("line1\n\n  {{ ", " }}\nend", True),
+    ("{% liquid\n echo ", "\n%}", True), ('{{ "${ ', ' }" }}', True), ("{% case ", " %}{% when 1 %}{% endcase %}", True),
+    ("{% assign v = ", " %}{{ v }}", False), ("{% if true %}\n{{\n  ", "\n}}{% endif %}", True),
+    ("{% unless ", " %}{% endunless %}", True), ("{{ a if ", " else a }}", True), ("{% cycle ", ", 1 %}", False),
+    ("{% with w: ", " %}{{ w }}{% endwith %}", False), ("{% for i in (1..2) %}\n  {% if i == ", " %}{% endif %}\n{% endfor %}", True),
+    ("\u00e9\u00e9\n{{ a }}{{ ", " }}", True), ("{% comment %}\n{% endcomment %}\n{# x\ny #}{{ ", " }}", True),
+]
+
+
+def nested_path(r: random.Random, depth: int, counter: list[int], start: int = 0) -> dict:
+    """A variable path with nested bracketed paths; every path node records the
+    absolute offset of its first character, its own text and its root name."""
+    counter[0] += 1
+    root = f"nv{counter[0]}"
+    node = {"root": root, "start": start, "children": []}
+    text = root
+    for _ in range(r.randint(1, 3)):
+        k = r.random()
+        if k < 0.3:
+            text += "." + r.choice(["title", "b", "x-y", "size"])
+        elif k < 0.4:
+            text += "[" + r.choice(["0", "1", "-1"]) + "]"
+        elif k < 0.5:
+            text += "[" + r.choice(["'k'", '"k"', "'a b'"]) + "]"
+        elif depth > 0:
+            ws = r.choice(["", "", "", " ", "\n  ", "\n"])
+            child = nested_path(r, depth - 1, counter, start + len(text) + 1 + len(ws))
+            node["children"].append(child)
+            text += "[" + ws + child["text"] + "]"
+        else:
+            text += ".p"
+    node["text"] = text
+    return node
+
+
+def path_nodes(node: dict) -> list[dict]:
+    out = [node]
+    for c in node["children"]:
+        out += path_nodes(c)
+    return out
+
+
+def nested_path_cases(r: random.Random, tier: str) -> list[tuple[str, list[dict], bool]]:
+    """(source, path nodes with absolute positions, must-raise-under-StrictUndefined)."""
+    out = []
+    n = 400 if tier == "thorough" else 60
+    fixed = 0
+    for k in range(n):
+        pre, post, must = PATH_CONTEXTS[k % len(PATH_CONTEXTS)]
+        counter = [0]
+        node = nested_path(r, r.randint(1, 3), counter, len(pre))
+        if not node["children"] and fixed < n // 2:
+            node = nested_path(r, 2, [0], len(pre))
+            fixed += 1
+        out.append((pre + node["text"] + post, path_nodes(node), must))
+    return out
